@@ -276,7 +276,7 @@ func genMapRound(r rng, prop string, flavors []string, hashers []string) (*mapRo
 	}
 	rd.procs = pick(r, []int{1, 2, 4, 16, 16})
 	rd.polling = r.chance(0.5)
-	fam := r.weighted([]int{28, 13, 13, 20, 16, 10})
+	fam := r.weighted([]int{26, 12, 12, 18, 14, 10, 8})
 	pClear := 0.0
 	if r.chance(0.4) {
 		pClear = 0.04
@@ -319,6 +319,24 @@ func genMapRound(r rng, prop string, flavors []string, hashers []string) (*mapRo
 		rd.waves = r.between(1, 3)
 		for w := 0; w < rd.workers; w++ {
 			rd.progs = append(rd.progs, genMapProg(r, r.between(20, 60), rd.hot, pClear, 0.4))
+		}
+	case 6: // read storm: in-place updates of one or two present keys under a storm of lock-free readers
+		rd.family = "read-storm"
+		rd.workers = r.between(6, 16)
+		rd.hot = pickMates(r, m, 64, r.between(1, 2))
+		rd.level, rd.focus, rd.procs = 0, vshim.NKinds, 16
+		for w := 0; w < rd.workers; w++ {
+			var p []wop
+			n := r.between(30, 60)
+			for j := 0; j < n; j++ {
+				k := pick(r, rd.hot)
+				if w%3 == 0 {
+					p = append(p, wop{kind: pick(r, []uint8{oStore, oLoadAndStore, oCompute}), k: k, v: nextVal(k), fn: fnSet, rec: true})
+				} else {
+					p = append(p, wop{kind: oLoad, k: k, rec: true})
+				}
+			}
+			rd.progs = append(rd.progs, p)
 		}
 	case 5: // probers: Store(k); Clear(); Load(k) in program order while others resize the table
 		rd.family = "clear-probe"
